@@ -25,6 +25,7 @@ RULE = (
 ASSUMPTIONS = [
     "configurations the constructors document as unsupported are not generated (normalisation with k>=2; pre-activation ConvBlock with different input/output signatures; banks for which a residual sum would meet different type sets)",
     "relative-defect threshold 2e-3 (see DESIGN 1.3); max-pool ties are measure-zero for N(0,1) inputs and covered by the re-draw rule",
+    "a float defect above the tolerance is not reported when the model is numerically ill-conditioned at that input: a relative input perturbation of 1e-6 already moves an output block by more than tolerance/4 (label ill_conditioned_excluded)",
     "evaluations whose outputs are non-finite or exceed 1e6 in magnitude on either side (float32 ill-conditioning of the eigh whitening far from initialisation) are excluded and counted under the label nonfinite_or_huge_excluded",
 ]
 CONFIG = {
@@ -91,6 +92,17 @@ def check_equivariance(cfg, model, prop="C07", evals_box=None):
                 worst = (df, t)
         return worst
 
+    def ill_conditioned(Xd):
+        """Round-off amplification guard: if a relative input perturbation of 1e-6 (float32 round-off scale) already moves
+        some output block by more than a quarter of the tolerance, a defect of that size says nothing about equivariance
+        (typical cause: a channel that is identically zero mathematically, e.g. an antisymmetric filter on a 2-pixel torus,
+        whose round-off noise is blown up by every normalisation layer)."""
+        rngp = np.random.default_rng(12345)
+        Xp = {t: (a * (1.0 + 1e-6 * rngp.standard_normal(a.shape))).astype(np.float32) for t, a in Xd.items()}
+        a0 = {t: np.asarray(v) for t, v in run(Xd).items()}
+        a1 = {t: np.asarray(v) for t, v in run(Xp).items()}
+        return any(rel_defect(a1[t], a0[t]) > FLOAT_TOL / 4 for t in a0)
+
     for g in elems:
         evals += 1
         df, t = defect(X, g, base_np)
@@ -99,16 +111,19 @@ def check_equivariance(cfg, model, prop="C07", evals_box=None):
             if not all(defect(f, g)[0] > FLOAT_TOL for f in fresh):
                 labels.append("redraw_rescued")
                 continue
+            if ill_conditioned(X):
+                labels.append("ill_conditioned_excluded")
+                continue
             return viol(f"{prop}/equivariance/{cfg['cls']}", f"g={np.asarray(g).tolist()} det={ref.det(g)}: output block {t} relative defect {df:.3g}; config {netgen.cfg_key(cfg)}"), labels, evals, base_np
     if tor:
         labels.append("translations")
         step = 2 ** cfg["num_downsamples"] if cfg["cls"] == "UNet" else 1
-        N = cfg["N"]
+        shp = netgen.model_shape(cfg)
         rng = np.random.default_rng(cfg["xseed"])
         shifts = [tuple(step if i == ax else 0 for i in range(d)) for ax in range(d)]
-        shifts += [tuple(int(step * rng.integers(0, max(1, N // step))) for _ in range(d)) for _ in range(2)]
+        shifts += [tuple(int(step * rng.integers(0, max(1, n // step))) for n in shp) for _ in range(2)]
         for s in shifts:
-            if not any(v % N for v in s):
+            if not any(v % n for v, n in zip(s, shp)):
                 continue
             evals += 1
             lhs = {t: np.asarray(v) for t, v in run({t: ref.roll(a, s, d, lead=1) for t, a in X.items()}).items()}
@@ -117,6 +132,9 @@ def check_equivariance(cfg, model, prop="C07", evals_box=None):
                 continue
             for t in base_np:
                 df = rel_defect(lhs[t], ref.roll(base_np[t], s, d, lead=1))
+                if df > FLOAT_TOL and ill_conditioned(X):
+                    labels.append("ill_conditioned_excluded")
+                    continue
                 if df > FLOAT_TOL:
                     return viol(f"{prop}/translation/{cfg['cls']}", f"shift {s}: block {t} relative defect {df:.3g}; config {netgen.cfg_key(cfg)}"), labels, evals, base_np
     if any(ref.det(g) == -1 for g in elems) or not any(ref.det(g) == -1 for g in G):
@@ -127,7 +145,7 @@ def check_equivariance(cfg, model, prop="C07", evals_box=None):
 def run_case(cfg):
     d = cfg["d"]
     labels = ["cls_" + cfg["cls"], f"d{d}", "G_" + cfg["G"], "norm" if cfg["group_norm"] else "nonorm", "preact" if cfg["preact"] else "postact",
-              f"bias_{cfg['bias']}", "torus" if cfg["torus"] else "notorus", "act_" + cfg["act"]]
+              f"bias_{cfg['bias']}", "torus" if cfg["torus"] else "notorus", "act_" + cfg["act"], "nonsquare" if len(set(netgen.model_shape(cfg))) > 1 else "square"]
     if any(t[0][1] == 1 for t in cfg["in_sig"] + cfg["out_sig"] + cfg.get("mid_sig", [])):
         labels.append("pseudo_type")
     if netgen.simulate_types(cfg) is None:
